@@ -661,10 +661,16 @@ impl<E: Effect> Executor<E> {
 
         self.processes.insert(id, process);
 
-        // Inject heap data and populate locals with captures
+        // Inject the heap data once for the captures and the argument together (they share one
+        // index space), then populate locals with the captures
         let captures_count = captures.len();
-        for value in captures {
-            let injected = self.inject_heap_data(value, &heap_data)?;
+        let mut values = captures;
+        values.push(argument);
+        let mut injected_values = self.inject_heap_data_many(values, &heap_data)?;
+        let injected_arg = injected_values
+            .pop()
+            .ok_or(Error::InvalidArgument("No argument injected".to_string()))?;
+        for injected in injected_values {
             // Injected into rooted storage (the new frame's locals).
             self.retain(&injected);
             let process = self
@@ -674,7 +680,6 @@ impl<E: Effect> Executor<E> {
         }
 
         // Push argument onto stack
-        let injected_arg = self.inject_heap_data(argument, &heap_data)?;
         self.retain(&injected_arg);
         let process = self
             .get_process_mut(id)
@@ -2799,9 +2804,26 @@ impl<E: Effect> Executor<E> {
     /// Extract heap data from a value for serialization across thread boundaries
     /// Returns (value, heap_data) where heap_data is a Vec of flattened binary data
     pub fn extract_heap_data(&self, value: &Value) -> Result<(Value, Vec<Vec<u8>>), Error> {
-        // Collect all unique heap indices referenced by this value
+        let (values, heap_data) = self.extract_heap_data_many(&[value])?;
+        let remapped_value = values
+            .into_iter()
+            .next()
+            .ok_or(Error::InvalidArgument("No value extracted".to_string()))?;
+        Ok((remapped_value, heap_data))
+    }
+
+    /// Extract heap data for several values that travel together (a spawn's captures and
+    /// argument). All of them share ONE compact index space and one heap vector, so the
+    /// receiver can inject the vector once and remap every value through the same table.
+    pub fn extract_heap_data_many(
+        &self,
+        values: &[&Value],
+    ) -> Result<(Vec<Value>, Vec<Vec<u8>>), Error> {
+        // Collect all unique heap indices referenced by these values
         let mut heap_indices = HashSet::new();
-        collect_heap_indices(value, &mut heap_indices);
+        for value in values {
+            collect_heap_indices(value, &mut heap_indices);
+        }
 
         // Sort indices for deterministic ordering
         let mut indices_vec: Vec<usize> = heap_indices.into_iter().collect();
@@ -2827,9 +2849,12 @@ impl<E: Effect> Executor<E> {
         }
 
         // Remap value indices
-        let remapped_value = remap_heap_indices(value, &index_map)?;
+        let remapped_values = values
+            .iter()
+            .map(|value| remap_heap_indices(value, &index_map))
+            .collect::<Result<Vec<_>, _>>()?;
 
-        Ok((remapped_value, heap_data))
+        Ok((remapped_values, heap_data))
     }
 }
 
@@ -2901,6 +2926,20 @@ impl<E: Effect> Executor<E> {
         value: Value,
         heap_data: &[Vec<u8>],
     ) -> Result<Value, Error> {
+        let values = self.inject_heap_data_many(vec![value], heap_data)?;
+        values
+            .into_iter()
+            .next()
+            .ok_or(Error::InvalidArgument("No value injected".to_string()))
+    }
+
+    /// Inject the heap data that travelled with several values (see `extract_heap_data_many`):
+    /// every blob is allocated once, and every value is remapped through the same table.
+    pub fn inject_heap_data_many(
+        &mut self,
+        values: Vec<Value>,
+        heap_data: &[Vec<u8>],
+    ) -> Result<Vec<Value>, Error> {
         // Allocate all heap data to executor and build index mapping. Goes through
         // `allocate_binary_data` so `refcounts` stays parallel to `heap` (the injected slots
         // start floating at 0; the receiving process's placement sites retain them).
@@ -2913,7 +2952,10 @@ impl<E: Effect> Executor<E> {
         }
 
         // Remap value indices
-        remap_heap_indices(&value, &index_map)
+        values
+            .iter()
+            .map(|value| remap_heap_indices(value, &index_map))
+            .collect()
     }
 }
 
